@@ -554,7 +554,7 @@ func lifecycle(w *hx.W, rng *rand.Rand, rounds int) {
 		go func() { served.Wait(); close(allServed) }()
 		select {
 		case <-allServed:
-		case <-time.After(30 * time.Second):
+		case <-time.After(60 * time.Second):
 			w.Violation("serve-outlives-close", "a Server.Serve call has not returned 30 s after Server.Close returned\n"+hx.Goroutines("imapserver.(*Server).Serve"), nil)
 			for _, ln := range lns {
 				ln.Close()
